@@ -144,6 +144,41 @@ def parse_assumptions(out):
     return closed, axioms
 
 
+def vo_key():
+    h = hashlib.sha1()
+    for f in sorted(glob_files(COQ, ('.vo',))):
+        st = os.stat(f)
+        h.update(('%s %d %d\n' % (f, st.st_size, int(st.st_mtime))).encode())
+    return h.hexdigest()
+
+
+def coqchk_all(log):
+    """Re-check every compiled property module and everything it depends on with the independent
+    checker (one invocation for the whole development: closures overlap), cached on the state of the
+    .vo files so that later thorough checks of an unchanged development reuse the verdict."""
+    cache = BUILD + '/coqchk.json'
+    run(['make', '-k', '-j16'], cwd=COQ, timeout=3000)   # every property file, so that the closure is complete
+    key = vo_key()
+    if os.path.exists(cache):
+        try:
+            c = json.load(open(cache))
+            if c.get('key') == key:
+                c['cached'] = True
+                return c
+        except ValueError:
+            pass
+    mods = ['Morlock.Properties.' + os.path.basename(f)[:-3] for f in sorted(glob_files(COQ + '/Properties', ('.vo',)))]
+    qs = []
+    for d in ('gen', 'Model', 'Spec', 'Lemmas', 'Impl', 'Properties'):
+        qs += ['-Q', d, 'Morlock.' + d]
+    rc, cout, dt = run(['coqchk', '-silent', '-o'] + qs + mods, cwd=COQ, timeout=7000)
+    log['coqchk_s'] = round(dt, 1)
+    m = re.search(r'\* Axioms:(.*?)\n\s*\n\* Constants', cout, re.S)
+    res = {'key': vo_key(), 'rc': rc, 'modules': mods, 'axioms': (m.group(1).strip() if m else None), 'tail': cout[-600:], 'seconds': round(dt, 1)}
+    json.dump(res, open(cache, 'w'), indent=1)
+    return res
+
+
 def build_driver(log):
     srcs = glob_files(COQ + '/Model', ('.vo',)) + glob_files(COQ + '/Spec', ('.vo',)) + glob_files(COQ + '/gen', ('.vo',)) + \
         [V + '/ocaml/' + f for f in os.listdir(V + '/ocaml') if f.endswith(('.ml', '.v', '.sh')) and f not in ('model.ml',)]
@@ -291,18 +326,10 @@ def main():
         # independent checker and record the axioms it reports
         coqchk = None
         if tier == 'thorough' and ok:
-            mods = ['Morlock.' + t[:-3].replace('/', '.') for t in targets if t.startswith('Properties/')]
-            if mods:
-                qs = []
-                for d in ('gen', 'Model', 'Spec', 'Lemmas', 'Impl', 'Properties'):
-                    qs += ['-Q', d, 'Morlock.' + d]
-                rc, cout, dt = run(['coqchk', '-silent', '-o'] + qs + mods, cwd=COQ, timeout=2400)
-                log['coqchk_s'] = round(dt, 1)
-                m = re.search(r'\* Axioms:(.*?)\n\s*\n\* Constants', cout, re.S)
-                coqchk = {'rc': rc, 'axioms': (m.group(1).strip() if m else cout[-400:])}
-                if rc != 0:
-                    failures.append({'file': 'coqchk', 'line': 0, 'lemma': ' '.join(mods), 'error': cout[-800:]})
-                    ok = False
+            coqchk = coqchk_all(log)
+            if coqchk.get('rc') != 0:
+                failures.append({'file': 'coqchk', 'line': 0, 'lemma': 'all property modules', 'error': str(coqchk.get('tail'))[-800:]})
+                ok = False
 
     if derr:
         failures.append({'file': 'ocaml/Extract.v', 'line': 0, 'lemma': 'extraction', 'error': derr[-1500:]})
@@ -349,8 +376,12 @@ def main():
         if rc != 0:
             harness_err = 'race build failed: ' + sout[-1500:]
             break
+        os.makedirs(BUILD + '/cases', exist_ok=True)
+        tracef = '%s/cases/trace-%s.txt' % (BUILD, sname)
+        if os.path.exists(tracef):
+            os.remove(tracef)
         rc, sout, dt = run([BUILD + '/vharness-race', 'stress', sname, str(seed), tier], timeout=3000, cwd=BUILD,
-                           env=dict(os.environ, GORACE='halt_on_error=0 exitcode=66'))
+                           env=dict(os.environ, GORACE='halt_on_error=0 exitcode=66', VERIF_TRACE_FILE=tracef))
         log['stress_s'] = round(log.get('stress_s', 0) + dt, 1)
         sres = {'n': 0, 'mismatch': [], 'specviol': [], 'classes': {}, 'file': '', 'harness_out': sout[-400:]}
         for ln in sout.split('\n'):
@@ -370,6 +401,23 @@ def main():
             sres['specviol'].append('stress %s :: the race detector reports a data race: %s prop=%s key=data-race' % (sname, rep[:1500], prop))
         elif rc not in (0,) and not sres['specviol']:
             harness_err = 'stress run failed (exit %d): %s' % (rc, sout[-1500:])
+        # the recorded command/output traces are replayed through the trace acceptor of the driver model
+        if os.path.exists(tracef) and os.path.getsize(tracef) > 0 and not derr:
+            rc2, dout, dt2 = run([BUILD + '/vdriver', tracef], timeout=1200)
+            log['driver_s'] = round(log.get('driver_s', 0) + dt2, 1)
+            sres['file'] = tracef
+            if rc2 != 0:
+                harness_err = 'driver failed on traces: ' + dout[-1500:]
+            for line in dout.split('\n'):
+                if line.startswith('MISMATCH '):
+                    sres['mismatch'].append(line[9:])
+                elif line.startswith('SPECVIOL '):
+                    sres['specviol'].append(line[9:])
+                elif line.startswith('CLASS '):
+                    _, k, v = line.split(' ')
+                    sres['classes'][k] = sres['classes'].get(k, 0) + int(v)
+                elif line.startswith('DONE '):
+                    sres['n'] += int(re.search(r'n=(\d+)', line).group(1))
         results.append(sres)
         stress_info[sname] = sout[-300:]
 
